@@ -16,6 +16,45 @@ pub static ZERO_SIZED_ALLOCS: AtomicUsize = AtomicUsize::new(0);
 /// non-zero: freed blocks are overwritten with 0xDD before they are returned to the system allocator
 pub static POISON: AtomicUsize = AtomicUsize::new(0);
 
+/// Blocks requested with an alignment of 64 or more are remembered (address, size, alignment) in a small table; a `dealloc`
+/// of such a block with another layout is counted (the `GlobalAlloc` contract wants the same layout back).
+pub static LAYOUT_MISMATCHES: AtomicUsize = AtomicUsize::new(0);
+const SLOTS: usize = 256;
+static TRACK_PTR: [AtomicUsize; SLOTS] = [const { AtomicUsize::new(0) }; SLOTS];
+static TRACK_SIZE: [AtomicUsize; SLOTS] = [const { AtomicUsize::new(0) }; SLOTS];
+static TRACK_ALIGN: [AtomicUsize; SLOTS] = [const { AtomicUsize::new(0) }; SLOTS];
+static TRACKED: AtomicUsize = AtomicUsize::new(0);
+
+fn track(p: *mut u8, l: Layout) {
+    if p.is_null() || l.align() < 64 || l.size() == 0 {
+        return;
+    }
+    for k in 0..SLOTS {
+        if TRACK_PTR[k].compare_exchange(0, p as usize, SeqCst, SeqCst).is_ok() {
+            TRACK_SIZE[k].store(l.size(), SeqCst);
+            TRACK_ALIGN[k].store(l.align(), SeqCst);
+            TRACKED.fetch_add(1, SeqCst);
+            return;
+        }
+    }
+}
+
+fn untrack(p: *mut u8, l: Layout) {
+    if TRACKED.load(SeqCst) == 0 {
+        return;
+    }
+    for k in 0..SLOTS {
+        if TRACK_PTR[k].load(SeqCst) == p as usize {
+            if TRACK_SIZE[k].load(SeqCst) != l.size() || TRACK_ALIGN[k].load(SeqCst) != l.align() {
+                LAYOUT_MISMATCHES.fetch_add(1, SeqCst);
+            }
+            TRACK_PTR[k].store(0, SeqCst);
+            TRACKED.fetch_sub(1, SeqCst);
+            return;
+        }
+    }
+}
+
 unsafe impl GlobalAlloc for Counting {
     unsafe fn alloc(&self, l: Layout) -> *mut u8 {
         ALLOC_CALLS.fetch_add(1, SeqCst);
@@ -24,7 +63,21 @@ unsafe impl GlobalAlloc for Counting {
         if l.size() == 0 {
             ZERO_SIZED_ALLOCS.fetch_add(1, SeqCst);
         }
-        System.alloc(l)
+        let p = System.alloc(l);
+        track(p, l);
+        p
+    }
+    unsafe fn alloc_zeroed(&self, l: Layout) -> *mut u8 {
+        // (zero pages from the system: a vector of gigabytes of zeros is never touched)
+        ALLOC_CALLS.fetch_add(1, SeqCst);
+        ALLOC_BYTES.fetch_add(l.size(), SeqCst);
+        LIVE_BYTES.fetch_add(l.size() as isize, SeqCst);
+        if l.size() == 0 {
+            ZERO_SIZED_ALLOCS.fetch_add(1, SeqCst);
+        }
+        let p = System.alloc_zeroed(l);
+        track(p, l);
+        p
     }
     unsafe fn dealloc(&self, p: *mut u8, l: Layout) {
         if p as usize == PROTECTED.load(SeqCst) && p as usize != 0 {
@@ -32,6 +85,7 @@ unsafe impl GlobalAlloc for Counting {
             return;
         }
         LIVE_BYTES.fetch_sub(l.size() as isize, SeqCst);
+        untrack(p, l);
         // poison what is freed: a read after free then sees 0xDD instead of the old contents
         if POISON.load(SeqCst) != 0 {
             core::ptr::write_bytes(p, 0xDD, l.size());
@@ -42,8 +96,20 @@ unsafe impl GlobalAlloc for Counting {
         ALLOC_CALLS.fetch_add(1, SeqCst);
         ALLOC_BYTES.fetch_add(new_size, SeqCst);
         LIVE_BYTES.fetch_add(new_size as isize - l.size() as isize, SeqCst);
-        System.realloc(p, l, new_size)
+        untrack(p, l);
+        let q = System.realloc(p, l, new_size);
+        if !q.is_null() {
+            track(q, Layout::from_size_align_unchecked(new_size, l.align()));
+        } else {
+            track(p, l);
+        }
+        q
     }
+}
+
+/// the remembered blocks (size, alignment): for debugging the table itself
+pub fn tracked_blocks() -> Vec<(usize, usize)> {
+    (0..SLOTS).filter(|k| TRACK_PTR[*k].load(SeqCst) != 0).map(|k| (TRACK_SIZE[k].load(SeqCst), TRACK_ALIGN[k].load(SeqCst))).collect()
 }
 
 pub fn snapshot() -> (usize, usize, isize) {
